@@ -124,6 +124,21 @@ def _compare(ctx, repo, rule, sites, builder, cases, kinds, describe):
             ctx.ob(rule, f"{builder}::blocking-vs-awaitable::{'-'.join(map(str, case))}", got["blocking"] == got["awaitable"],
                    f"the blocking path emits {got['blocking'][0]!r}, the awaitable path {got['awaitable'][0]!r} for the same request {describe(case)}",
                    repo.method(sites[0][0], sites[0][1]).loc)
+    # the frame itself, against the in.touch2 layout (the decoder drops the version bytes, so a round trip cannot see
+    # them): SPACK seq type len cmd [config log pos.hi pos.lo data.. | key]
+    for case in cases:
+        ref = _reference(repo, builder, (SEQ,) + tuple(case))
+        if isinstance(ref, str):
+            continue
+        if builder == "set_value":
+            pos, ln, val = case
+            want = b"SPACK" + bytes([SEQ, IDENT["pack_type"], 5 + ln, 0x46, IDENT["config_version"], IDENT["log_version"]]) + pos.to_bytes(2, "big") + val.to_bytes(ln, "big")
+        else:
+            want = b"SPACK" + bytes([SEQ, IDENT["pack_type"], 2, 0x39, case[0]])
+        framed = b"<DATAS>" + want + b"</DATAS>"
+        ctx.ob(rule, f"{HANDLER}.{builder}::in.touch2-layout::{'-'.join(map(str, case))}", isinstance(ref, bytes) and framed in ref,
+               f"{HANDLER}.{builder}({describe(case)}; pack type {IDENT['pack_type']}, config version {IDENT['config_version']}, log version {IDENT['log_version']}) builds {ref!r}; "
+               f"the in.touch2 frame is {want!r} (sequence, pack type, length, command, then config version, log version, position, data)", repo.method(HANDLER, builder).loc)
     ctx.count(f"{rule}:{builder} callbacks interpreted", n)
     ctx.floor(rule, f"{builder} callbacks interpreted", n, len(sites) * len(cases))
 
